@@ -10,7 +10,7 @@
    statistics. *)
 From Coq Require Import List Bool String ZArith.
 From FM Require Import Base.Result Base.AstOp Model.Ast Model.FM Model.PFM Format.Xml Format.Ref
-     Proofs.FideFacts Proofs.RefFacts Proofs.C09Facts Proofs.AfmVariant Format.Json Format.Glencoe Format.Afm.
+     Proofs.FideFacts Proofs.RefFacts Proofs.C09Facts Proofs.AfmVariant Proofs.JsonVariant Format.Json Format.Glencoe Format.Afm.
 Import ListNotations.
 Local Open Scope list_scope.
 
@@ -102,3 +102,23 @@ Print Assumptions C09_nonvacuous.
 Theorem C09_afm_document_parentheses : forall d, afm_read_cst (afm_map_exprs strip_parens d) = afm_read_cst d.
 Proof. exact afm_read_doc_parens. Qed.
 Print Assumptions C09_afm_document_parentheses.
+
+(* Glencoe, whole document (JsonVariant.v).  [gextra]: keys the format does not define inserted into the document,
+   into any entry of the features map, into any tree node, into any constraint term (values of any depth);
+   [gflat]: additionally an n-ary And/Or/Xor term whose FIRST operand is a term of the same type merged with it,
+   anywhere; [gperm]: the entries of any object with distinct keys permuted, except the entry list of the
+   constraints object itself (its order is the order of the constraints; the unrestricted statement is refuted
+   in JsonVariant.glencoe_read_jperm_false). *)
+Theorem C09_glencoe_undefined_keys_anywhere : forall d d', gextra d d' -> glencoe_read d = glencoe_read d'.
+Proof. exact glencoe_read_extra. Qed.
+Print Assumptions C09_glencoe_undefined_keys_anywhere.
+Theorem C09_glencoe_nary_flattening_anywhere : forall d d', gflat d d' -> glencoe_read d = glencoe_read d'.
+Proof. exact glencoe_read_flat. Qed.
+Print Assumptions C09_glencoe_nary_flattening_anywhere.
+Theorem C09_glencoe_key_order : forall d d', gperm d d' -> glencoe_read d = glencoe_read d'.
+Proof. exact glencoe_read_perm. Qed.
+Print Assumptions C09_glencoe_key_order.
+Example C09_glencoe_variants_nonvacuous :
+  gextra ex_doc ex_doc_extra /\ gflat ex_doc ex_doc_flat /\ gperm ex_doc ex_doc_perm.
+Proof. exact (conj ex_extra_rel (conj ex_flat_rel ex_perm_rel)). Qed.
+Print Assumptions C09_glencoe_variants_nonvacuous.
